@@ -106,6 +106,18 @@ Quoted == {<<q>> \o pre \o e \o post \o <<q>> : q \in {39, 34}, pre \in {<<>>, <
 LongForms == {Bs("[[x]]"), <<91, 91, 10, 120, 93, 93>>, <<91, 91, 10, 10, 120, 93, 93>>, Bs("[=[x]]y]=]"), Bs("[==[]==]"), <<91, 91, 97, 10, 98, 93, 93>>,
               Bs("[[ \\n \\z ]]"), Bs("[[--x]]"), Bs("[=[ [[x]] ]=]"), <<91, 61, 91, 10, 93, 93, 93, 61, 93>>, Bs("[[]]"), Bs("[===[ ]==] ]===]")}
 SourceSpellings == Quoted \cup LongForms
+\* ---- SOURCE spellings of binary / hexadecimal numbers (family numsp): every bit string of 1..9 digits, grouped with
+\* underscores, both prefixes; every hexadecimal string of 1..3 digits over a digit alphabet.  The value read must be the value
+\* Luau gives the spelling, and what convert_luau_number writes for it (under every generator) must read back as that value.
+Bits(n) == [1..n -> {48, 49}]
+BinSpell == {<<48, 98>> \o w : w \in UNION {Bits(n) : n \in 1..9}}
+       \cup {<<48, 66>> \o w : w \in UNION {Bits(n) : n \in 1..3}}
+       \cup {<<48, 98>> \o a \o <<95>> \o b : a \in UNION {Bits(n) : n \in 1..3}, b \in UNION {Bits(n) : n \in 1..3}}
+       \cup {<<48, 98>> \o [k \in 1..n |-> IF k = 1 THEN 49 ELSE 48] : n \in 10..20}
+       \cup {<<48, 98>> \o [k \in 1..n |-> IF k % 3 = 1 THEN 49 ELSE 48] : n \in 10..20}
+HexDigs == {48, 49, 57, 97, 102, 65, 70}
+HexSpell == {<<48, 120>> \o w : w \in UNION {[1..n -> HexDigs] : n \in 1..3}} \cup {<<48, 88>> \o w : w \in [1..2 -> HexDigs]}
+NumberSpellings == BinSpell \cup HexSpell
 
 VARIABLES kind, fam, key, s, d, aux
 vars == <<kind, fam, key, s, d, aux>>
@@ -118,6 +130,7 @@ Init ==
   \/ /\ kind = "srcseed" /\ On("srcstr") /\ fam = "srcstr" /\ key \in {0} /\ s = <<>> /\ d = <<0, 0>> /\ aux = <<0, 0>>
 Next ==
   \/ kind = "srcseed" /\ kind' = "src" /\ s' \in SourceSpellings /\ UNCHANGED <<fam, key, d, aux>>
+  \/ kind = "srcseed" /\ kind' = "numsp" /\ s' \in NumberSpellings /\ UNCHANGED <<fam, key, d, aux>>
   \/ kind = "strseed" /\ kind' = "str" /\ s' \in StrMembers(fam, key) /\ UNCHANGED <<fam, key, d, aux>>
   \/ kind = "numseed" /\ kind' = "num" /\ d' \in Doubles(key) /\ UNCHANGED <<fam, key, s, aux>>
   \/ kind = "expseed" /\ kind' = "nume" /\ d' \in ExpBases /\ aux' \in Exponents \X {0, 1} /\ UNCHANGED <<fam, key, s>>
@@ -126,6 +139,7 @@ Next ==
 RoundTripOrKnown == kind # "str" \/ RoundTrip(s) \/ (DevLongBracket /\ Trigger_F_C13_a(s))
 Emit ==
   CASE kind = "src" -> EmitLine("CASE " \o JsonOf([kind |-> "src", fam |-> fam, b |-> s]))
+    [] kind = "numsp" -> EmitLine("CASE " \o JsonOf([kind |-> "parse", fam |-> "spelling", text |-> StrOfBytes(s)]))
     [] kind = "str" -> EmitLine("CASE " \o JsonOf([kind |-> "str", fam |-> fam, b |-> s, rt |-> RoundTrip(s), trig |-> Trigger_F_C13_a(s),
                                                     u |-> NeedsUnicodeEscape(s), long |-> Len(s) >= 2 /\ UsesLongBracket(s), model |-> WriteString(s)]))
     [] kind = "num" -> EmitLine("CASE " \o JsonOf([kind |-> "num", fam |-> fam, hi |-> d[1], lo |-> d[2]]))
